@@ -5,7 +5,12 @@ import os
 
 from vmon import env, findings
 
-EVID = os.path.join(env.VERIF_ROOT, "evidence")
+# The evidence files of record describe runs on /repo's working tree only.  A run against another tree (VERIF_REPO: the
+# mutation self-test, seeded changes, prototypes of repairs) writes to a git-ignored scratch directory instead.
+if env.REPO == "/repo":
+    EVID = os.path.join(env.VERIF_ROOT, "evidence")
+else:
+    EVID = os.path.join(env.VERIF_ROOT, "evidence", "_work", "scratch-tree")
 REPLAY = os.path.join(EVID, "replay")
 
 
